@@ -69,6 +69,10 @@ static std::vector<std::string> seeds() {
         "", "a: 1\n", "a: 1", "name: Ada\nage: 36\n", "tags[3]: a,b,c\n", "items[2]{id,name}:\n  1,Ada\n  2,Bob\n", "items[2]{id,name}:\n  1,Ada\n", "items[3]: 1,2\n",
         "user:\n  name: Ada\n  roles[2]: admin,dev\n", "list[2]:\n  - 1\n  - x: 2\n    y: 3\n", "s: \"quoted, \\\"text\\\"\\n\"\n", "s: \"unterminated\n", "k: [1,2\n", "a:\n    b: 1\n  c: 2\n", "a: 1\na: 2\n",
         "x[2]{a,b}:\n  1,2\n  3,4\n  5,6\n", "n: -0.5e3\nb: true\nz: null\n", "[3]: 1,2,3\n", "[2]:\n  - a\n  - b\n", "\xff\xfe: 1\n", "a:\tb\n", "a: 1\r\nb: 2\r\n", "deep:\n  a:\n    b:\n      c:\n        d: 1\n",
+        // list items: first field / following fields being array headers with and without key, tabular and nested lists
+        "[1]:\n  - k[2]: 1,2\n    m[1]: 3\n", "[1]:\n  - a: 1\n    [2]: x,y\n", "[1]:\n  - [2]: 1,2\n", "[1]:\n  - [2]:\n    - 1\n    - 2\n", "[1]:\n  - a[1]{x}:\n      1\n    b: 2\n",
+        "[2]:\n  -:\n    [2]", "[2]:\n  - a:\n      b: 1\n    c[2]: 1,2\n  - d: 2\n", "[1]:\n  - k[1]:\n      - z: 1\n        [1]: 2\n", "[2|]: 1|2\n", "[2\t]: 1\t2\n", "a[#2]: 1,2\n", "a[2]{x,y:\n  1,2\n",
+        "[3]:\n  - 1\n\n  - 2\n  - 3\n", "[1]:\n  -\n", "[1]:\n  - \"q\": 1\n    \"r\"[1]: 2\n", "\"k\"[1]{\"a\"}:\n  1\n", "a.b.c: 1\n", "a:\n  - 1\n", "[0]:\n", "x[0]:\ny: 1\n",
     };
 }
 // encode_toon(value, std::ostream&) does not compile in the pinned tree (try_encode_toon calls encode_value with
